@@ -532,3 +532,14 @@ Print Assumptions C15_merge_groups_proof.
 Print Assumptions C09_mirror_proof.
 Print Assumptions C09_from_agree_proof.
 Print Assumptions C09_name_vis_proof.
+
+Require Strum.Proofs.IterP.
+Lemma C13_one_per_iterated_proof : stmt_C13_one_per_iterated.
+Proof.
+  unfold stmt_C13_one_per_iterated. intros it ms ic n Hm Hi Hc.
+  destruct (C13_methods_proof it ms Hm) as (Hs & _).
+  destruct (IterP.C04_table_proof it ic Hi) as (Ht & _).
+  split; [rewrite Hs, Ht; reflexivity|].
+  rewrite <- (map_length im_variant), Hs, map_length. symmetry. exact (IterP.gen_count_spec it n Hc).
+Qed.
+Print Assumptions C13_one_per_iterated_proof.
